@@ -25,6 +25,7 @@ import Mathlib.Tactic.FieldSimp
 import Mathlib.Tactic.Ring
 import Mathlib.Tactic.Linarith
 import QV.Model.Stats
+import QV.Model.Observables
 import QV.Lemmas.Stats
 import QV.Lemmas.Unbiased
 import QV.GenBridge.UpdateStatistics
@@ -572,6 +573,48 @@ theorem C13_system_dict (env : Env σ) (obs : List (κ × (σ → List ℝ))) (a
       rw [hkeys]
       exact lookup_zip_at _ _ n hnk r.1 q.1 (by simpa using key.1)
 
+/-- **C13.5 keys** — the keys of the dictionary `System.statistics` returns are exactly the NAMES of the observables
+given, each once, in order of first occurrence (for observables returning at least one value per batch): nothing is
+dropped but a repeated name, nothing is added, nothing is renamed or reordered. With `C13_system_dict` (what is stored
+under each key) this determines the whole result. -/
+theorem C13_system_keys_of_names (env : Env σ) (obs : List (κ × (σ → List ℝ))) (a : Args σ)
+    (hne : ∀ o ∈ obs, ∀ st, o.2 st ≠ []) (r : List (κ × Stat ℝ) × List (SampleCall σ))
+    (h : systemStatistics env obs a = .ok r) :
+    r.1.map (·.1) = firstOcc (obs.map (·.1)) := by
+  unfold systemStatistics at h
+  simp only at h
+  have hne' : ∀ g ∈ (systemInit obs).map (·.2), ∀ st, g st ≠ [] := by
+    intro g hg st
+    obtain ⟨e, he, rfl⟩ := List.mem_map.mp hg
+    exact hne e (mem_systemInit obs e he) st
+  cases hs : sysStatistics env ((systemInit obs).map (·.2)) a with
+  | error e => rw [hs] at h; cases h
+  | ok q =>
+    rw [hs] at h
+    simp only [Except.ok.injEq] at h
+    subst h
+    have hlen : ((systemInit obs).map (·.1)).length ≤ q.1.length := by
+      by_cases h0 : ((systemInit obs).map (·.2)).length = 0
+      · simp only [List.length_map] at h0 ⊢; omega
+      · have hj : ((systemInit obs).map (·.2)).length - 1 < ((systemInit obs).map (·.2)).length := by omega
+        have key := C13_system env ((systemInit obs).map (·.2)) a hne' _ hj
+        rw [hs] at key
+        cases ho : obsStatistics env ((systemInit obs).map (·.2))[((systemInit obs).map (·.2)).length - 1] a with
+        | error e => rw [ho] at key; simp [Except.map] at key
+        | ok p =>
+          rw [ho] at key
+          simp only [Except.map, Except.ok.injEq, Prod.mk.injEq] at key
+          have := key.1
+          have hlt : ((systemInit obs).map (·.2)).length - 1 < q.1.length := by
+            by_contra hge
+            rw [List.getElem?_eq_none (by omega)] at this
+            cases this
+          simp only [List.length_map] at hlt h0 ⊢
+          omega
+    simp only
+    rw [← systemInit_keys]
+    exact List.map_fst_zip hlen
+
 /-- **C13.5** (the statement's clause, for sets of observables with pairwise different names): evaluating the
 observables together gives EACH of them — under its own name — exactly the dictionary it would get alone with the
 same sampler, hence on the same chain states, and the same sampler calls are made. -/
@@ -641,6 +684,22 @@ theorem C13_system_fromSamples (obs : List (κ × (σ → List ℝ))) (samples :
     have := hl₁ p hp
     simpa using this
   simp [this]
+
+/-! ### `to_01` next to `to_pm1` (observables/utils.py:16-33): the two spin conventions are inverse to each other -/
+
+/-- `to_01(to_pm1(x)) = x` — in particular on the samples' values 0 / 1 -/
+theorem C13_to01_toPm1 (x : ℝ) : to01 (toPm1 x) = x := by
+  simp only [to01, toPm1, two_eq]; ring
+
+/-- `to_pm1(to_01(s)) = s` — in particular on the spin values −1 / +1 -/
+theorem C13_toPm1_to01 (s : ℝ) : toPm1 (to01 s) = s := by
+  simp only [to01, toPm1, two_eq]; ring
+
+/-- on the bits themselves: `to_01` sends the spin of a bit (`0 ↦ −1`, `1 ↦ +1`) back to the bit -/
+theorem C13_to01_spin (b : Bool) : to01 (spin b : ℝ) = bit b := C13_to01_toPm1 _
+
+example : to01 (-1 : ℝ) = 0 ∧ to01 (1 : ℝ) = 1 := by
+  constructor <;> norm_num [to01, two_eq]
 
 theorem collect_map_nil {β γ : Type} (ds : List β) :
     collect (ds.map (fun _ => (Except.ok [] : Except PyErr (List γ)))) = .ok (ds.map (fun _ => [])) := by
